@@ -1,7 +1,9 @@
 pub mod c02;
 pub mod c03;
 pub mod c04;
+pub mod c05;
 pub mod c12;
+pub mod c13;
 
 use crate::engine::Ctx;
 
@@ -18,7 +20,9 @@ pub fn dispatch(ctx: &Ctx, replay: Option<&str>) -> i32 {
         "C02" => p!(c02),
         "C03" => p!(c03),
         "C04" => p!(c04),
+        "C05" => p!(c05),
         "C12" => p!(c12),
+        "C13" => p!(c13),
         other => {
             eprintln!("MACHINERY: unknown property {}", other);
             2
